@@ -462,6 +462,79 @@ def run(tier, seed, replay=None):
         if (perm, flip) != ori and corr_bad.open():
             corr_bad += {'what': 'L1: Orientation.compute returns %s, the model %s' % (ori, (perm, flip)), 'op': 'orientation', 'args': dict(a=O.spec_json(spec), b=O.spec_json(sb))}
     dist['op']['L1 comparisons'] = nl1
+    # ---- kernel-evaluated tie: BSplineBasis.matches vs Model/Matches.v (basis_matches_res on Q, vm_compute)
+    import vmtie as T
+    mcases = []
+    mdist = {}
+    nm = 40 if tier == 'quick' else 400
+    for _ in range(nm):
+        p_ = rng.choice([1, 2, 2, 3, 3, 4])
+        nsp = rng.randint(1, 5)
+        inner = sorted(rng.sample(range(1, 16), min(nsp - 1, 14)))
+        kn = [0] * p_ + [x_ / 16.0 for x_ in inner for _m in range(rng.choice([1, 1, 1, min(2, max(1, p_ - 1))]))] + [1] * p_
+        per = -1
+        kind = rng.choice(['same', 'affine', 'moved', 'moved-small', 'reversed', 'order', 'length', 'periodic', 'relative'])
+        a_, b_ = rng.choice([1.0, 2.0 ** -10, 2.0 ** 12, 3.0]), rng.choice([0.0, -5.0, 1024.0])
+        k1 = [a_ * x_ + b_ for x_ in kn]
+        k2 = list(kn)
+        rev = rng.random() < 0.4
+        tol_ = rng.choice([1e-10, 1e-10, 1e-6, 1e-3])
+        try:
+            if kind == 'affine':
+                c_, d_ = rng.choice([0.5, 7.0, 2.0 ** 20]), rng.choice([0.0, 3.0, -100.0])
+                k2 = [c_ * x_ + d_ for x_ in kn]
+            elif kind in ('moved', 'moved-small', 'relative') and inner:
+                j_ = rng.randrange(p_, len(kn) - p_)
+                delta = {'moved': 0.3 / 16, 'moved-small': tol_ * rng.choice([0.3, 3.0]), 'relative': 1e-5 * kn[j_] * rng.choice([0.3, 3.0]) + tol_ * 0.1}[kind]
+                lo_, hi_ = (kn[j_ - 1], kn[j_ + 1])
+                if lo_ < kn[j_] + delta < hi_ or kind != 'moved':
+                    k2[j_] = kn[j_] + delta
+                    k2 = sorted(k2)
+            elif kind == 'reversed':
+                k2 = [1 - x_ for x_ in reversed(kn)]
+            elif kind == 'order':
+                k2 = [0] + kn + [1]
+            elif kind == 'length' and p_ < 4:
+                k2 = kn[:p_] + [0.5 + 1.0 / 64] + kn[p_:]
+            elif kind == 'periodic' and p_ >= 2 and len(kn) - 2 * p_ >= 1:
+                per = 0
+            b1 = BSplineBasis(p_, k1, per if kind != 'periodic' or rng.random() < 0.5 else -1)
+            b2 = BSplineBasis(p_ + (1 if kind == 'order' else 0), k2, per)
+        except Exception:  # noqa  (not a valid basis: nothing to compare)
+            continue
+        with state.state(knot_tolerance=tol_):
+            try:
+                got_ = 'Ok ' + str(bool(b1.matches(b2, reverse=rev))).lower()
+            except ValueError:
+                got_ = 'Err ValueError'
+            except IndexError:
+                got_ = 'Err IndexError'
+        # undecidable in floating point: some |a_i - b_i| within 1e-3 (relative) of its threshold
+        from fractions import Fraction as _F
+        amb = False
+        if b1.order == b2.order and b1.periodic == b2.periodic and len(b1.knots) == len(b2.knots):
+            f1 = [_F(x_) for x_ in b1.knots]
+            f2 = [_F(x_) for x_ in b2.knots]
+            dt1, dt2 = f1[-1] - f1[0], f2[-1] - f2[0]
+            na = [(f1[-1] - x_) / dt1 for x_ in reversed(f1)] if rev else [(x_ - f1[0]) / dt1 for x_ in f1]
+            nb = [(x_ - f2[0]) / dt2 for x_ in f2]
+            for x_, y_ in zip(na, nb):
+                th = _F(tol_) + _F(1, 100000) * abs(y_)
+                if abs(abs(x_ - y_) - th) <= th / 1000 + _F(1, 10 ** 14):
+                    amb = True
+        if amb:
+            continue
+        mdist[kind + ':' + got_] = mdist.get(kind + ':' + got_, 0) + 1
+        want = {'Ok true': 'Ok true', 'Ok false': 'Ok false', 'Err ValueError': 'Err ValueError', 'Err IndexError': 'Err IndexError'}[got_]
+        term = 'match basis_matches_res %s %s %s %s with %s => true | _ => false end' % (
+            T.q(tol_), T.basis(b1), T.basis(b2), 'true' if rev else 'false',
+            want.replace('Ok true', 'Ok true').replace('Ok false', 'Ok false'))
+        mcases.append(('matches(reverse=%s, knot_tolerance=%g) on a %s pair: the implementation answers %s' % (rev, tol_, kind, got_), term,
+                       dict(order1=b1.order, knots1=[float(x_) for x_ in b1.knots], periodic1=int(b1.periodic), order2=b2.order,
+                            knots2=[float(x_) for x_ in b2.knots], periodic2=int(b2.periodic), reverse=rev, knot_tolerance=tol_, got=got_)))
+    tie_m = T.report(V, corr_bad, 'matches', 'Model/Matches.v basis_matches_res', *T.run_tie('matches', ['Model.Matches'], mcases))
+    dist['op']['vmtie matches'] = tie_m['cases']
+    dist['kind'].update({'vmtie ' + k_: v_ for k_, v_ in mdist.items()})
     rc = V.finish(l0, corr_bad)
     C.write_evidence(PID, tier, seed, l0, {
         'evaluations': evals, 'distinct_nontrivial': len(nontriv),
